@@ -242,8 +242,10 @@ namespace
             std::shared_ptr<d_array> m_out_arr;
             confignav m_confignav;
             confignav::iterator m_iterator_current;
+            // the entry the condition was asked about: the condition may delete it, its slot then holds no entry any more
+            config m_current;
         public:
-            behavior_configclasses_exit(confignav confignav) : m_out_arr(std::make_shared<d_array>()), m_confignav(confignav), m_iterator_current(confignav.begin()) {}
+            behavior_configclasses_exit(confignav confignav) : m_out_arr(std::make_shared<d_array>()), m_confignav(confignav), m_iterator_current(confignav.begin()), m_current(*confignav.begin()) {}
             virtual result enact(sqf::runtime::runtime& runtime, sqf::runtime::frame& frame) override
             {
                 auto res = runtime.context_active().pop_value();
@@ -251,10 +253,10 @@ namespace
                 {
                     if (res->is<t_boolean>())
                     {
-                        auto nav = m_iterator_current.nav();
+                        auto nav = m_current.navigate(runtime.confighost());
                         bool is_class = nav->size() > 0 || (nav->size() == 0 && nav->value.empty());
                         if (res->data<d_boolean, bool>() && is_class) {
-                            m_out_arr->push_back({ *m_iterator_current });
+                            m_out_arr->push_back({ m_current });
                         }
                     }
                     else
@@ -275,7 +277,8 @@ namespace
                 {
                     runtime.context_active().clear_values();
                     frame.clear_value_scope();
-                    frame["_x"] = { *m_iterator_current };
+                    m_current = *m_iterator_current;
+                    frame["_x"] = { m_current };
                     return result::seek_start;
                 }
             };
@@ -317,8 +320,10 @@ namespace
             std::shared_ptr<d_array> m_out_arr;
             confignav m_confignav;
             confignav::iterator m_iterator_current;
+            // the entry the condition was asked about: the condition may delete it, its slot then holds no entry any more
+            config m_current;
         public:
-            behavior_configproperties_exit(confignav confignav) : m_out_arr(std::make_shared<d_array>()), m_confignav(confignav), m_iterator_current(confignav.begin()) {}
+            behavior_configproperties_exit(confignav confignav) : m_out_arr(std::make_shared<d_array>()), m_confignav(confignav), m_iterator_current(confignav.begin()), m_current(*confignav.begin()) {}
             virtual result enact(sqf::runtime::runtime& runtime, sqf::runtime::frame& frame) override
             {
                 auto res = runtime.context_active().pop_value();
@@ -327,7 +332,7 @@ namespace
                     auto value = res->data_try<d_boolean, bool>();
                     if (value.has_value())
                     {
-                        m_out_arr->push_back({ *m_iterator_current });
+                        m_out_arr->push_back({ m_current });
                     }
                     else
                     {
@@ -347,7 +352,8 @@ namespace
                 {
                     runtime.context_active().clear_values();
                     frame.clear_value_scope();
-                    frame["_x"] = { *m_iterator_current };
+                    m_current = *m_iterator_current;
+                    frame["_x"] = { m_current };
                     return result::seek_start;
                 }
             };
